@@ -38,14 +38,15 @@ TRUSTED = ["SQLite (mattn/go-sqlite3) transaction semantics ON A CONNECTION THAT
            "a restart of the daemon = a second RuntimeState from loadVerifyConfigFile / initDB on the same data directory, the first one's handles closed, its background copier stopped; the process boundary itself (exit, exec) is not crossed",
            "software U2F token (harness/kmd/vdevice.go) for registrations and WebAuthn assertions"]
 
-UNPROVED = ["the gob encoding round trip of userProfile (U2F registrations, WebAuthn credentials, TOTP secrets, bootstrap OTP, pending data) is property-tested through the real Save/Load and the cache, not proved",
+UNPROVED = ["encoding/gob itself stays trusted library code: proved (c15_profile_roundtrip, Model/Profile.v) is that the content of a userProfile (U2F registrations, WebAuthn credentials, TOTP secrets, bootstrap OTP, pending data; maps by key, nil = empty) is stable under gob's documented zero-value rules, for every profile; that the real encoder behind SaveUserProfile / LoadUserProfile and the cache obeys those rules is COMPARED on the generated profiles (Go canonical strings, and the same (saved, loaded) pairs evaluated inside Coq: c15_profile_mismatches), not proved",
+            "the Go -> Coq rendering of a profile abstracts byte strings longer than 14 bytes to length + 48 bits of SHA-256, a u2f.Registration to its Raw bytes, SessionData.Extensions to its sorted listing and times to Unix nanoseconds; c15_profile_save_load takes the codec's content behaviour (dec (enc p) = gob_roundtrip p) as its premise, the storage model's blobs stay numbers",
             "which handler belongs to which model class is established by driving it (20 requests); handlers that need a WebAuthn attestation (RegisterFinish) or e-mail (self-service bootstrap OTP) are only probed generically"]
 
 
 def run(ctx):
     ctx.audit("Props.C15", PROPS)
     ctx.extract()
-    files = ["kmd/common.go", "kmd/creds.go", "kmd/faultdb.go", "kmd/vdevice.go", "kmd/storeenv.go", "kmd/c15.go", "kmd/c15profile.go",
+    files = ["kmd/common.go", "kmd/creds.go", "kmd/faultdb.go", "kmd/vdevice.go", "kmd/storeenv.go", "kmd/c15.go",
              os.path.join(ctx.work, "gen", "mux_gen.go")]
     ok, result, log = ctx.go_harness("cmd/keymasterd", "TestVerif_C15", files, timeout=1500)
     compile_gen(ctx, ("Routes.v", "Tables.v", "Consts.v"))
